@@ -3,7 +3,8 @@
 (* Trace validation for C01 / C02: every logged call of a mutation history *)
 (* executed on the implementation must be a step of FTStore, and every     *)
 (* clause of the two properties is evaluated on the implementation's       *)
-(* projected state after every call.                                       *)
+(* projected state after every call (and on the freshly constructed        *)
+(* object, step 0).                                                        *)
 (* One behaviour per log line; never blocks: failing clauses are recorded  *)
 (* in `fails` and the spec state is re-synchronised with the logged state. *)
 (*   P:...  clause of a listed property   S:... conformance beyond them    *)
@@ -12,38 +13,54 @@ EXTENDS FTStore, Json, IOUtils
 
 Log == ndJsonDeserialize(IOEnv.TRACE_FILE)
 
-VARIABLES i, l, st, fails, dead
-vars == <<i, l, st, fails, dead>>
+VARIABLES i, l, st, fails, dead, pf    \* pf: state clauses already failing in the previous state (reported once, where they first break)
+vars == <<i, l, st, fails, dead, pf>>
 
 B == Log[i]
-Init == /\ i \in 1..Len(Log) /\ l = 0 /\ st = Abs(Log[i].init) /\ fails = <<>> /\ dead = FALSE
+
+Good(root, depth) == NoForeign(root) /\ ParallelLists(root) /\ SortedUnique(root) /\ DepthIs(root, depth)
+
+\* clauses on a projected object state (tensor or raw fiber)
+StateClauses(BB, ps) ==
+  LET root == ps.root
+      ok   == NoForeign(root)
+      isT  == BB.emb = "tensor"
+  IN << <<"P:C01:boxed-interior", ok>>,
+        <<"P:C01:parallel-lists", ok => ParallelLists(root)>>,
+        <<"P:C01:sorted-unique",  ok => SortedUnique(root)>>,
+        <<"P:C01:uniform-depth",  ok => DepthIs(root, BB.depth)>>,
+        <<"P:C02:rank-mirror", (ok /\ isT) => \A r \in 1..Len(ps.ranks) : RankListOK(ps, r)>>,
+        <<"P:C02:owner",       (ok /\ isT) => OwnersOK(root, 0)>>,
+        <<"P:C02:chain",       (ok /\ isT) => (ChainOK(ps) /\ Len(ps.ranks) = BB.depth)>>,
+        <<"P:C02:root-first",  (ok /\ isT) => RootFirst(ps)>> >>
+
+Init == /\ i \in 1..Len(Log) /\ l = 0
+        /\ LET BB   == Log[i]
+               root == BB.init0.root
+               good == Good(root, BB.depth)
+               f    == Fails(StateClauses(BB, BB.init0) \o << <<"S:ctor-conform", NoForeign(root) => Abs(root) = Abs(BB.init)>> >>)
+           IN /\ st = IF good THEN Abs(root) ELSE Abs(BB.init)
+              /\ dead = ~good
+              /\ fails = [k \in 1..Len(f) |-> <<0, f[k]>>]
+              /\ pf = SeqToSet(Fails(StateClauses(BB, BB.init0)))
 
 Judge(ev) ==
   LET root == ev.post.root
-      isT  == B.emb = "tensor"
-      c01  == <<
-         <<"P:C01:boxed-interior", NoForeign(root)>>,
-         <<"P:C01:parallel-lists", NoForeign(root) => ParallelLists(root)>>,
-         <<"P:C01:sorted-unique",  NoForeign(root) => SortedUnique(root)>>,
-         <<"P:C01:uniform-depth",  NoForeign(root) => DepthIs(root, B.depth)>>,
-         <<"P:C01:rejected-unchanged", (ev.exc = "order" /\ NoForeign(root)) => Abs(root) = st>> >>
-      c02  == IF isT /\ NoForeign(root) THEN <<
-         <<"P:C02:rank-mirror", \A r \in 1..Len(ev.post.ranks) : RankListOK(ev.post, r)>>,
-         <<"P:C02:owner", OwnersOK(root, 0)>>,
-         <<"P:C02:chain", ChainOK(ev.post) /\ Len(ev.post.ranks) = B.depth>>,
-         <<"P:C02:root-first", RootFirst(ev.post)>> >> ELSE <<>>
+      ok   == NoForeign(root)
       en   == Enabled(st, B.depth, ev.act)
       exp  == IF en THEN Apply(st, B.depth, ev.act) ELSE Outcome(st, "disabled")
-      sc   == IF en /\ NoForeign(root) THEN <<
-         <<"S:outcome", ev.exc = exp.exc>>,
-         <<"S:post-conform", ev.exc = exp.exc => Abs(root) = exp.tree>> >> ELSE <<>>
-  IN Fails(c01 \o c02 \o sc)
+      sc   == IF en /\ ok THEN <<
+                 <<"S:outcome", ev.exc = exp.exc>>,
+                 <<"S:post-conform", ev.exc = exp.exc => Abs(root) = exp.tree>> >> ELSE <<>>
+  IN SelectSeq(Fails(StateClauses(B, ev.post)), LAMBDA c : c \notin pf)
+        \o Fails(<< <<"P:C01:rejected-unchanged", (ev.exc = "order" /\ ok) => Abs(root) = st>> >> \o sc)
 
 Next == /\ l < Len(B.steps) /\ ~dead
         /\ LET ev == B.steps[l + 1]
                f  == Judge(ev)
            IN /\ fails' = fails \o [k \in 1..Len(f) |-> <<l + 1, f[k]>>]
-              /\ dead' = ~(NoForeign(ev.post.root) /\ SortedUnique(ev.post.root) /\ DepthIs(ev.post.root, B.depth))
+              /\ pf' = SeqToSet(Fails(StateClauses(B, ev.post)))
+              /\ dead' = ~Good(ev.post.root, B.depth)
               /\ st' = IF dead' THEN st ELSE Abs(ev.post.root)
         /\ l' = l + 1 /\ UNCHANGED i
 
